@@ -209,7 +209,8 @@ def match_known(known: list[dict], pid: str, rule: str, key: str) -> Optional[di
     for k in known:
         if k.get("status", "known") != "known":
             continue  # `fixed` entries suppress nothing
-        if pid in k.get("properties", [k.get("property")]) and k.get("rule") == rule and k.get("key") == key:
+        if pid in k.get("properties", [k.get("property")]) and k.get("rule") == rule \
+                and key in k.get("keys", [k.get("key")]):
             return k
     return None
 
